@@ -379,7 +379,9 @@ func (g *typeGuesser) isFloat() bool {
 		}
 	}
 	if dot && !exp {
-		return true
+		// Only a number is a float: `"foo.bar"` is a string with a dot in it.
+		_, err := g.parseNumber()
+		return err == nil
 	}
 
 	n, err := g.parseNumber()
